@@ -68,31 +68,31 @@ def corrLoop : Nat → Nat → Nat → Nat → Nat → Nat → Option Nat
 /-- iterations the model allows each correction loop (Knuth: at most 2 are ever needed; 3rd evaluation exits) -/
 def loopFuel : Nat := 3
 
-/-- bits.go:45-92 `Div32` -/
+/-- one quotient digit of `Div32`: the estimate `q := u1 / yn1; rhat := u1 - q*yn1` followed by its correction loop.
+    The Go code has this block twice: bits.go:68-77 (q1, on un16/un1) and bits.go:80-89 (q0, on un21/un0). -/
+def digit (yn1 yn0 u1 u0 : Nat) : Option Nat :=
+  corrLoop loopFuel (u1 / yn1) (sub32 u1 (u32 (u1 / yn1 * yn1))) yn1 yn0 u0
+
+/-- bits.go:68-91: the two digits on the normalised operands, and the results -/
+def div32Core (y yn1 yn0 un16 un1 un0 s : Nat) : DivResult :=
+  match digit yn1 yn0 un16 un1 with
+  | none => .fuel
+  | some q1 =>
+    let un21 := sub32 (u32 (u32 (un16 * 65536) + un1)) (u32 (q1 * y))
+    match digit yn1 yn0 un21 un0 with
+    | none => .fuel
+    | some q0 =>
+      .ok (u32 (u32 (q1 * 65536) + q0)) (shr32 (sub32 (u32 (u32 (un21 * 65536) + un0)) (u32 (q0 * y))) s)
+
+/-- bits.go:45-92 `Div32` (lines 51-66: panics and normalisation; the rest in `div32Core`) -/
 def div32 (hi lo y : Nat) : DivResult :=
   if y = 0 then .divideError
   else if y ≤ hi then .overflowError
   else
     let s := leadingZeros32 y
     let y := shl32 y s
-    let yn1 := y >>> 16
-    let yn0 := y &&& 65535
-    let un16 := shl32 hi s ||| shr32 lo (32 - s)
     let un10 := shl32 lo s
-    let un1 := un10 >>> 16
-    let un0 := un10 &&& 65535
-    let q1 := un16 / yn1
-    let rhat := sub32 un16 (u32 (q1 * yn1))
-    match corrLoop loopFuel q1 rhat yn1 yn0 un1 with
-    | none => .fuel
-    | some q1 =>
-      let un21 := sub32 (u32 (u32 (un16 * 65536) + un1)) (u32 (q1 * y))
-      let q0 := un21 / yn1
-      let rhat := sub32 un21 (u32 (q0 * yn1))
-      match corrLoop loopFuel q0 rhat yn1 yn0 un0 with
-      | none => .fuel
-      | some q0 =>
-        .ok (u32 (u32 (q1 * 65536) + q0)) (shr32 (sub32 (u32 (u32 (un21 * 65536) + un0)) (u32 (q0 * y))) s)
+    div32Core y (y >>> 16) (y &&& 65535) (shl32 hi s ||| shr32 lo (32 - s)) (un10 >>> 16) (un10 &&& 65535) s
 
 inductive RemResult where
   | ok (rem : Nat)
